@@ -1,7 +1,7 @@
 (* geometry requests (C18: 1800.., C13: 1300..). *)
 From Coq Require Import List ZArith QArith Bool.
 From PV Require Import lib.Sx lib.Str lib.Result.
-From PV Require Import model.Geometry spec.SpecGeom extract.OrCommon.
+From PV Require Import model.Geometry model.GeomStore spec.SpecGeom extract.OrCommon.
 Import ListNotations.
 Open Scope Z_scope.
 
@@ -103,6 +103,12 @@ Definition req_geom (code : Z) (arg : sx) : sx :=
   | 1806, SS s => of_result of_padding (padding_from_attr s)
   | 1807, SL [SS s; obs] =>
       match sx_result sx_padding obs with Some o => of_bool (ok_padding s o) | None => bad end
+  | 1815, SL [SI op; w; h; l] =>
+      (* heap model: decoded result and sharing profile of Layout.as_percentage_of (op 0) / fit_to_screen (op 1) *)
+      match sx_opt sx_q w, sx_opt sx_q h, sx_layout l with
+      | Some w, Some h, Some l =>
+          of_result (fun r => SL [of_opt of_layout (fst r); of_list SI (snd r)]) (layout_op_profile op w h l)
+      | _, _, _ => bad end
   | 1300, SL [a; w; h] =>
       match sx_size a, sx_opt sx_q w, sx_opt sx_q h with
       | Some a, Some w, Some h => of_result of_size (size_as_pct a w h) | _, _, _ => bad end
@@ -125,7 +131,7 @@ Definition req_geom (code : Z) (arg : sx) : sx :=
 
 Definition dispatch (code : Z) (arg : sx) : option sx :=
   match code with
-  | 1800 | 1801 | 1802 | 1803 | 1804 | 1805 | 1806 | 1807 | 1808 | 1809 | 1810 | 1811 | 1812 | 1813 | 1814
+  | 1800 | 1801 | 1802 | 1803 | 1804 | 1805 | 1806 | 1807 | 1808 | 1809 | 1810 | 1811 | 1812 | 1813 | 1814 | 1815
   | 1300 | 1301 | 1302 | 1303 | 1304 => Some (req_geom code arg)
   | _ => None
   end.
